@@ -42,6 +42,7 @@ import (
 // the behaviour before Prepare, is the wrapped plugin's own).
 type vkPlug struct {
 	plugin.Plugin
+	cur      func() sysState // if set, the system state right now (overrides st)
 	st       *sysState
 	idx      int
 	mu       *sync.Mutex
@@ -53,17 +54,25 @@ func (p *vkPlug) Prepare(ifi *net.Interface) error {
 	if err := p.Plugin.Prepare(ifi); err != nil {
 		return err
 	}
+	state := func() sysState {
+		if p.cur != nil {
+			return p.cur()
+		}
+		return *p.st
+	}
 	addrs := func() ([]system.IP, error) {
-		if p.st.AddrErr {
+		st := state()
+		if st.AddrErr {
 			return nil, fmt.Errorf("verif: injected address source failure")
 		}
-		return stFor(*p.st, p.idx).Addrs, nil
+		return stFor(st, p.idx).Addrs, nil
 	}
 	routes := func() ([]system.Route, error) {
-		if p.st.RouteErr {
+		st := state()
+		if st.RouteErr {
 			return nil, fmt.Errorf("verif: injected route source failure")
 		}
-		return slices.Clone(p.st.Routes), nil
+		return slices.Clone(st.Routes), nil
 	}
 	switch x := p.Plugin.(type) {
 	case *plugin.Prefix:
@@ -89,6 +98,8 @@ type c17Case struct {
 	Probes   []int64  `json:"probes_ns"`
 	FwdFlips []int64  `json:"forwarding_flips_ns"`
 	StopNS   int64    `json:"stop_ns"`
+	AddrChangeNS int64 `json:"addr_change_ns"` // >0: at this instant the first addr_drop addresses and routes disappear from the system
+	AddrDrop     int   `json:"addr_drop"`
 	StateErr []int64  `json:"state_failure_toggles_ns"` // the State's forwarding read starts / stops failing at these instants
 	Autoconf []bool   `json:"autoconf"`                 // kernel autoconf value per interface (cyclic)
 }
@@ -105,6 +116,16 @@ type c17Probe struct {
 	APIBody  []byte
 	Metrics  int
 	PProf    int
+}
+
+// c17StateAt is the system state at virtual time at (ambiguous exactly at the change).
+func c17StateAt(c c17Case, at time.Duration) (sysState, bool) {
+	st := c.State
+	if c.AddrChangeNS > 0 && at >= time.Duration(c.AddrChangeNS) {
+		st.Addrs = st.Addrs[min(c.AddrDrop, len(st.Addrs)):]
+		st.Routes = st.Routes[min(c.AddrDrop, len(st.Routes)):]
+	}
+	return st, c.AddrChangeNS > 0 && at == time.Duration(c.AddrChangeNS)
 }
 
 func c17Expected(ri rIface, st sysState, epoch time.Time) (*ndp.RouterAdvertisement, bool) {
@@ -149,7 +170,8 @@ func c17Prop(t *testing.T, k *verifkit.Kit) func(c c17Case) error {
 				p := time.Duration(-1)
 				prepared[ifi.Name] = &p
 				for j := range ifi.Plugins {
-					ifi.Plugins[j] = &vkPlug{Plugin: ifi.Plugins[j], st: &st, idx: i, mu: &mu, prepared: prepared[ifi.Name], w: w.now}
+					ifi.Plugins[j] = &vkPlug{Plugin: ifi.Plugins[j], st: &st, idx: i, mu: &mu, prepared: prepared[ifi.Name], w: w.now,
+						cur: func() sysState { s, _ := c17StateAt(c, w.now()); return s }}
 				}
 				w.fwd[ifi.Name] = st.Fwd
 				if len(c.Autoconf) > 0 {
@@ -413,7 +435,11 @@ func c17Prop(t *testing.T, k *verifkit.Kit) func(c c17Case) error {
 					if !p.Prepared[ri.Name] {
 						allReady = false
 					}
-					st := stFor(c.State, ifIdx)
+					base, amb := c17StateAt(c, p.At)
+					if amb {
+						ambiguous = true
+					}
+					st := stFor(base, ifIdx)
 					st.MAC = vkMACFor(ri.Name)
 					st.Fwd = p.Fwd[ri.Name]
 					st.NowNS = int64(p.At)
@@ -702,6 +728,10 @@ func c17Gen(t *rapid.T) c17Case {
 		c.StateErr = []int64{a, a + rapid.Int64Range(1, 4*s).Draw(t, "failfor")}
 	}
 	c.Autoconf = rapid.SliceOfN(rapid.Bool(), 0, 3).Draw(t, "autoconf")
+	if rapid.Bool().Draw(t, "addrchange") {
+		c.AddrChangeNS = rapid.Int64Range(1, 11*s).Draw(t, "addrchangeat")
+		c.AddrDrop = rapid.IntRange(1, 3).Draw(t, "addrdrop")
+	}
 	c.Probes = []int64{0}
 	for i, n := 0, rapid.IntRange(1, 5).Draw(t, "nprobes"); i < n; i++ {
 		c.Probes = append(c.Probes, rapid.SampledFrom([]int64{1, 250 * int64(time.Millisecond), s, 3 * s, 8*s + 1, 12 * s}).Draw(t, "probe")+rapid.Int64Range(0, 999).Draw(t, "jitter"))
@@ -711,6 +741,9 @@ func c17Gen(t *rapid.T) c17Case {
 	}
 	if len(c.StateErr) > 0 {
 		c.Probes = append(c.Probes, c.StateErr[0]+1, c.StateErr[1]+1)
+	}
+	if c.AddrChangeNS > 0 {
+		c.Probes = append(c.Probes, c.AddrChangeNS+1, c.AddrChangeNS+int64(time.Second))
 	}
 	c.StopNS = 13 * s
 	return c
